@@ -298,7 +298,7 @@ TABLE["C18"] = [
           "  checkScalar(array,\"unwrap<unsigned char>\");\n  return myGetScalar<unsigned char>(array);\n}\n", "")),
     B("matrix-guard-removed", {"K4"},
       (H, "  if (mxIsDouble(array)==false) error(\"unwrap<matrix>: not a matrix\");\n", "")),
-    B("vector-column-check-dropped", {"K4"},
+    B("vector-column-check-dropped", {"K10"},
       (H, "  if (mxIsDouble(array)==false || n!=1) error(\"unwrap<vector>: not a vector\");",
        "  if (mxIsDouble(array)==false) error(\"unwrap<vector>: not a vector\");", 0)),
     B("guard-after-data-pointer", {"K4"},
@@ -1299,4 +1299,45 @@ TABLE["C05"] += [
       (MW, "            if is_method or is_static_method or is_property:\n                role = None", "            if is_method or is_static_method and is_property:\n                role = None")),
     N("role-withheld-by-one-isinstance-of-a-tuple",
       (MW, "            if is_method or is_static_method or is_property:\n                role = None", "            if isinstance(extra, (parser.Method, parser.StaticMethod, parser.Variable)):\n                role = None")),
+]
+TABLE["C18"] += [
+    B("matrix-reader-skips-the-first-column", {"K9"},
+      (H, "  for (int j=0;j<n;j++) for (int i=0;i<m;i++,data++) A(i,j) = *data;", "  for (int j=1;j<n;j++) for (int i=0;i<m;i++,data++) A(i,j) = *data;")),
+    B("vector-writer-counts-downwards", {"K9"},
+      (H, "  for (int i=0;i<m;i++) data[i]=v(i);", "  for (int i=0;i<m;i--) data[i]=v(i);")),
+    B("vector-guard-accepts-only-non-doubles", {"K10"},
+      (H, "  if (mxIsDouble(array)==false || n!=1) error(\"unwrap<vector>: not a vector\");", "  if (mxIsDouble(array)==true || n!=1) error(\"unwrap<vector>: not a vector\");", 0)),
+    B("vector-guard-conjunction", {"K10"},
+      (H, "  if (mxIsDouble(array)==false || n!=1) error(\"unwrap<vector>: not a vector\");", "  if (mxIsDouble(array)==false && n!=1) error(\"unwrap<vector>: not a vector\");", 1)),
+    B("handle-guard-accepts-a-column-of-two", {"K10"},
+      (H, "    || mxGetM(mxh) != 1 || mxGetN(mxh) != 1) error(", "    || mxGetM(mxh) != 2 || mxGetN(mxh) != 1) error(")),
+    B("string-guard-inverted", {"K10"},
+      (H, "  if (data==NULL) error(\"unwrap<string>: not a character array\");", "  if (data!=NULL) error(\"unwrap<string>: not a character array\");")),
+    B("registry-guard-inverted", {"K10"},
+      (H, "    if(!rttiRegistry)", "    if(rttiRegistry)")),
+    B("matrix-created-complex", {"K11"},
+      (H, "  mxArray *result = mxCreateDoubleMatrix(m, n, mxREAL);", "  mxArray *result = mxCreateDoubleMatrix(m, n, mxCOMPLEX);")),
+    B("scalar-array-of-two-elements", {"K11"},
+      (H, "  mwSize dims[1]; dims[0]=1;", "  mwSize dims[1]; dims[0]=2;")),
+    B("enum-array-empty", {"K11"},
+      (H, "  mxArray* a = mxCreateDoubleMatrix(1, 1, mxREAL);", "  mxArray* a = mxCreateDoubleMatrix(0, 1, mxREAL);")),
+    B("virtual-constructor-called-with-two-inputs", {"K12"},
+      (H, "    nargin = 3;", "    nargin = 2;")),
+    B("void-marker-overwrites-the-pointer", {"K12"},
+      (H, "    input[2] = mxCreateString(\"void\");", "    input[1] = mxCreateString(\"void\");")),
+    B("handle-read-from-element-one", {"K12"},
+      (H, "  mxArray* mxh = mxGetProperty(obj,0, propertyName.c_str());", "  mxArray* mxh = mxGetProperty(obj,1, propertyName.c_str());", 0)),
+    B("class-name-buffer-without-terminator", {"K12"},
+      (H, "    char *buf = new char[strLen+1];", "    char *buf = new char[strLen+0];")),
+    B("virtual-object-never-created", {"K12"},
+      (H, "    result = create_object(matlabName, &void_ptr, isVirtual, typeid(*shared_ptr).name());", "    ;")),
+    B("unknown-type-wrapped-silently", {"K13"},
+      (H, "  error(\"wrap internal error: attempted wrap of invalid type\");", "  ;")),
+    N("vector-guard-written-with-negation",
+      (H, "  if (mxIsDouble(array)==false || n!=1) error(\"unwrap<vector>: not a vector\");", "  if (!mxIsDouble(array) || !(n==1)) error(\"unwrap<vector>: not a vector\");", 0)),
+    N("handle-guard-as-negated-conjunction",
+      (H, "  if (mxGetClassID(mxh) != mxUINT32OR64_CLASS || mxIsComplex(mxh)\n    || mxGetM(mxh) != 1 || mxGetN(mxh) != 1) error(",
+       "  if (!(mxGetClassID(mxh) == mxUINT32OR64_CLASS && !mxIsComplex(mxh)\n    && mxGetM(mxh) == 1 && mxGetN(mxh) == 1)) error(")),
+    N("matrix-writer-with-compound-step",
+      (H, "  for (int j=0;j<n;j++) for (int i=0;i<m;i++,data++) *data = A(i,j);", "  for (int j=0;j<n;j+=1) for (int i=0;i<m;i+=1,data++) *data = A(i,j);")),
 ]
